@@ -1086,6 +1086,9 @@ func runFileCases(a *hlib.Args, cases []*c03case, onlyCDB bool) error {
 		return err
 	}
 	fmt.Fprintf(os.Stderr, "TIMING compile %v\n", time.Since(tc))
+	if time.Since(tc) > 2*time.Second {
+		fmt.Fprintf(os.Stderr, "SLOWFILE\n%s\nENDSLOW\n", cases[0].File)
+	}
 	defer func() { tz := time.Now(); closeAll(bks); fmt.Fprintf(os.Stderr, "TIMING close %v\n", time.Since(tz)) }()
 	t0 := time.Now()
 	for _, c := range cases {
